@@ -228,3 +228,23 @@ func init() {
 	stubOverrides["github.com/tdewolff/parse/v2/html.ToHash"] = hashSummaryStub
 	stubOverrides["github.com/tdewolff/parse/v2/css.ToHash"] = hashSummaryStub
 }
+
+func init() {
+	externals["math.IsNaN"] = func(fr *frame, args []value) value {
+		if sx, ok := args[0].(sym); ok {
+			return mkval(FUn(OpFIsNaN, sx.t), types.Bool)
+		}
+		f := args[0].(float64)
+		return f != f
+	}
+	externals["math.Abs"] = func(fr *frame, args []value) value {
+		if sx, ok := args[0].(sym); ok {
+			return mkval(Ite(FCmp(OpFLt, sx.t, F64(0)), FUn(OpFNeg, sx.t), sx.t), types.Float64)
+		}
+		f := args[0].(float64)
+		if f < 0 {
+			return -f
+		}
+		return f
+	}
+}
